@@ -172,12 +172,18 @@ where T: Ring + Bridge, for<'x> &'x T: RingOps<T>, T::O: OEuc {
         let comp = sp_to_o(s.complement());
         let src = s.trans_src().map(|t| (sp_to_o(&t.forward_mat()), sp_to_o(&t.backward_mat())));
         let tgt = s.trans_tgt().map(|t| (sp_to_o(&t.forward_mat()), sp_to_o(&t.backward_mat())));
+        // disassemble() hands out the same three parts
+        let (c2, s2, t2) = s.disassemble();
+        let src2 = s2.map(|t| (sp_to_o(&t.forward_mat()), sp_to_o(&t.backward_mat())));
+        let tgt2 = t2.map(|t| (sp_to_o(&t.forward_mat()), sp_to_o(&t.backward_mat())));
+        if sp_to_o(&c2) != comp || src2 != src || tgt2 != tgt { panic!("C12-schur-disassemble-differs") }
         (comp, src, tgt)
     }));
     trace::set_policy(Policy::None, 0, 2);
     let (comp, src, tgt) = match res {
         Ok(x) => x,
         Err(p) => {
+            if p.brief().contains("C12-schur-disassemble-differs") { ctx.violation(&format!("C12/{tname}/schur/disassemble"), "Schur::disassemble differs from complement() / trans_src() / trans_tgt()", wit(json!(null))); return }
             if !unbounded && p.is_overflow() { ctx.inconclusive("overflow_machine_int"); return }
             ctx.violation(&format!("C12/{tname}/schur/panic"), &format!("Schur::from_partial_triangular panicked: {}", p.brief()), wit(json!(null)));
             return
@@ -245,15 +251,24 @@ fn decomp_case(ctx: &mut Ctx, rng: &mut Rng) {
     let pool = &pools()[&nthreads];
     let a2 = a.clone();
     let res = guarded(move || pool.install(move || {
+        let idx = yui_matrix::sparse::decomp::dir_sum_indices(&a2);
         let (p, q, s) = dir_sum_decomp(a2);
         let pv: Vec<usize> = (0..p.view().dim()).map(|i| p.view().at(i)).collect();
         let qv: Vec<usize> = (0..q.view().dim()).map(|j| q.view().at(j)).collect();
+        // dir_sum_indices: the index groups of the same decomposition — block k of the result has the shape of
+        // (rows[k], cols[k]), every entry of the matrix lies in exactly one group pair
+        if let Some((rows, cols)) = &idx {
+            if rows.len() != cols.len() || rows.len() != s.len() || (0..s.len()).any(|k| s[k].shape() != (rows[k].len(), cols[k].len())) { panic!("C12-dir-sum-indices-differ") }
+        } else if s.len() != 1 { panic!("C12-dir-sum-indices-differ") }
         (pv, qv, s)
     }));
     trace::set_policy(Policy::None, 0, 2);
     let (pv, qv, s) = match res {
         Ok(x) => x,
-        Err(p) => { ctx.violation("C12/i64/decomp/panic", &format!("dir_sum_decomp panicked ({} threads): {}", nthreads, p.brief()), wit(json!(null))); return }
+        Err(p) => {
+            if p.brief().contains("C12-dir-sum-indices-differ") { ctx.violation("C12/i64/decomp/indices", "dir_sum_indices does not describe the blocks dir_sum_decomp returns", wit(json!(null))); return }
+            ctx.violation("C12/i64/decomp/panic", &format!("dir_sum_decomp panicked ({} threads): {}", nthreads, p.brief()), wit(json!(null))); return
+        }
     };
     let mut bad: Option<(&str, String)> = None;
     // "the same value on one thread and on many": the decomposition is not unique mathematically, so the
